@@ -75,10 +75,11 @@ func (a *Act) intrinsic(name string, fv FuncV, args []Value) (Value, bool) {
 		return SliceV{arr: ptrTo(a.alloc(arr)), len: BV(64, uint64(len(parts))), cap: BV(64, uint64(len(parts)))}, true
 	case "strings.Title":
 		s := args[0].(StrV)
-		if !s.conc {
-			panic(unsupported("strings.Title on symbolic string"))
+		if s.conc {
+			return ConcStr(strings.Title(s.s)), true
 		}
-		return ConcStr(strings.Title(s.s)), true
+		// a choice among constants: map every leaf
+		return StrV{id: mapStrLeaves(s.id, func(x string) string { return strings.Title(x) })}, true
 	case "hash/crc32.MakeTable":
 		arr := ArrayV{e: make([]Value, 256)}
 		for i := range arr.e {
@@ -114,9 +115,39 @@ func (a *Act) intrinsic(name string, fv FuncV, args []Value) (Value, bool) {
 		return in.fresh("hasSuffix", BoolSort), true
 	case "(*sync.Cond).Broadcast", "(*sync.Cond).Signal":
 		in.events = append(in.events, "cond.Broadcast")
+		id := a.condGhost(args[0].(PtrV))
+		a.st.heap[id] = nv(Value(BvBin("bvadd", a.st.heap[id].v.(*Term), BV(8, 1))))
 		return nil, true
 	case "(*sync.Cond).Wait":
-		a.deadlockIf(True, "cond.Wait with nothing that can wake it (single-goroutine harness)")
+		// Wait: the caller must hold c.L; L is released, the goroutine blocks (other goroutines run:
+		// harness hook verifOnBlock), it is woken only by a Broadcast/Signal issued meanwhile, then
+		// L is re-acquired.
+		c := args[0].(PtrV)
+		id := a.condGhost(c)
+		cv := a.load(c).(StructV)
+		var L IfaceV
+		for _, f := range cv.f {
+			if iv, ok := f.(IfaceV); ok {
+				L = iv
+				break
+			}
+		}
+		lockerT := fv.fn.Pkg.Pkg.Scope().Lookup("Locker").Type().Underlying().(*types.Interface)
+		var unlockM, lockM *types.Func
+		for i := 0; i < lockerT.NumMethods(); i++ {
+			switch lockerT.Method(i).Name() {
+			case "Lock":
+				lockM = lockerT.Method(i)
+			case "Unlock":
+				unlockM = lockerT.Method(i)
+			}
+		}
+		before := a.st.heap[id].v.(*Term)
+		a.invoke(invokeTarget{recv: L, method: unlockM}, nil)
+		a.blockingPoint("cond.Wait")
+		after := a.st.heap[id].v.(*Term)
+		a.deadlockIf(Eq(before, after), "cond.Wait never woken: no Broadcast/Signal can follow")
+		a.invoke(invokeTarget{recv: L, method: lockM}, nil)
 		return nil, true
 	case "time.NewTicker":
 		ch := a.alloc(ChanData{closed: False, ticker: true})
@@ -142,7 +173,7 @@ func (a *Act) intrinsic(name string, fv FuncV, args []Value) (Value, bool) {
 				in.lockHist = map[string]int{}
 			}
 			in.lockHist[k]++
-			if hook := a.fn.Pkg.Func("verifOnLock"); hook != nil && !in.inHook && in.lockHist[k] >= 2 {
+			if hook := in.harnessPkg.Func("verifOnLock"); hook != nil && !in.inHook && in.lockHist[k] >= 2 {
 				in.inHook = true
 				a.callFunc(FuncV{fn: hook}, nil)
 				in.inHook = false
@@ -201,7 +232,7 @@ func (a *Act) intrinsic(name string, fv FuncV, args []Value) (Value, bool) {
 		a.atomicOp = false
 		return nil, true
 	case "time.Now":
-		if vn := a.fn.Pkg.Func("verifNow"); vn != nil && a.fn != vn {
+		if vn := in.harnessPkg.Func("verifNow"); vn != nil && a.fn != vn {
 			return a.callFunc(FuncV{fn: vn}, nil), true
 		}
 		return in.timeVal(in.fresh("now", BVS(64))), true
@@ -223,7 +254,7 @@ func (a *Act) intrinsic(name string, fv FuncV, args []Value) (Value, bool) {
 	case "(time.Time).Sub":
 		return BvBin("bvsub", args[0].(StructV).f[1].(*Term), args[1].(StructV).f[1].(*Term)), true
 	case "google.golang.org/grpc/status.Code":
-		sum := a.fn.Pkg.Func("verifStatusCode")
+		sum := in.harnessPkg.Func("verifStatusCode")
 		if sum == nil {
 			panic(unsupported("no verifStatusCode in harness"))
 		}
@@ -272,7 +303,7 @@ func (a *Act) intrinsic(name string, fv FuncV, args []Value) (Value, bool) {
 	}
 	bn := baseName(name)
 	if bn == "getAffinityKeysFromMessage" && !in.realKeys {
-		sum := fv.fn.Pkg.Func("verifKeysSummary")
+		sum := in.harnessPkg.Func("verifKeysSummary")
 		if sum == nil {
 			panic(unsupported("no verifKeysSummary in harness"))
 		}
@@ -322,6 +353,24 @@ func (a *Act) intrinsic(name string, fv FuncV, args []Value) (Value, bool) {
 			}
 		}
 		return nil, true
+	case "verifGuardedBy":
+		// verifGuardedBy(&x.field, &x.mu, "name"): every write to the cell by the code under test must hold the mutex
+		unwrap := func(v Value) PtrV {
+			if iv, ok := v.(IfaceV); ok && len(iv.alts) == 1 {
+				v = iv.alts[0].val
+			}
+			p, ok := v.(PtrV)
+			if !ok {
+				panic(unsupported("verifGuardedBy needs pointers"))
+			}
+			return p
+		}
+		cell, mu := unwrap(args[0]), unwrap(args[1])
+		if len(cell.alts) != 1 || len(mu.alts) != 1 {
+			panic(unsupported("verifGuardedBy needs concrete pointers"))
+		}
+		in.guarded = append(in.guarded, guardedCell{obj: cell.alts[0].obj, path: fmt.Sprint(cell.alts[0].path), mu: fmt.Sprintf("%d:%v", mu.alts[0].obj, mu.alts[0].path), name: argStr(args[2])})
+		return nil, true
 	case "verifFairSelect":
 		in.fairSelect = args[0].(*Term).IsTrue()
 		return nil, true
@@ -340,9 +389,9 @@ func (a *Act) intrinsic(name string, fv FuncV, args []Value) (Value, bool) {
 	case "verifObserve":
 		switch t := args[1].(type) {
 		case *Term:
-			in.observes = append(in.observes, Observe{argStr(args[0]), t})
+			in.observes = append(in.observes, Observe{argStr(args[0]), t, a.g})
 		case StrV:
-			in.observes = append(in.observes, Observe{argStr(args[0]), strID(t)})
+			in.observes = append(in.observes, Observe{argStr(args[0]), strID(t), a.g})
 		default:
 			panic(unsupported("verifObserve of non-scalar"))
 		}
@@ -378,6 +427,8 @@ func (a *Act) intrinsic(name string, fv FuncV, args []Value) (Value, bool) {
 	case "verifRaceCandidates":
 		in.raceCandidates(a)
 		return nil, true
+	case "verifCrcOf":
+		return in.named("crc", BVS(32)), true
 	case "verifCrcArgsOK":
 		// checksum was computed over exactly this slice with the Castagnoli polynomial
 		want := args[0].(SliceV)
@@ -630,4 +681,41 @@ func (a *Act) deepClone(v Value, t types.Type, depth int) Value {
 		return out
 	}
 	return v
+}
+
+// mapStrLeaves rebuilds an ite-tree of interned string constants with f applied to every leaf.
+func mapStrLeaves(t *Term, f func(string) string) *Term {
+	if t.IsConst() {
+		str, ok := strByID(t.val)
+		if !ok {
+			panic(unsupported("string operation on an unknown string id"))
+		}
+		return strID(ConcStr(f(str)))
+	}
+	if t.op == "ite" {
+		return Ite(t.args[0], mapStrLeaves(t.args[1], f), mapStrLeaves(t.args[2], f))
+	}
+	panic(unsupported("string operation on a symbolic string"))
+}
+
+// condGhost returns the heap object holding the ghost broadcast counter of a sync.Cond.
+func (a *Act) condGhost(c PtrV) int {
+	in := a.in
+	if len(c.alts) != 1 {
+		panic(unsupported("sync.Cond through a symbolic pointer"))
+	}
+	k := fmt.Sprintf("%d:%v", c.alts[0].obj, c.alts[0].path)
+	if in.condObjs == nil {
+		in.condObjs = map[string]int{}
+	}
+	id, ok := in.condObjs[k]
+	if !ok {
+		id = in.nextObj
+		in.nextObj++
+		in.condObjs[k] = id
+	}
+	if _, ok := a.st.heap[id]; !ok {
+		a.st.heap[id] = VS{Value(BV(8, 0)), -id}
+	}
+	return id
 }
